@@ -28,7 +28,7 @@
                         diagnoses selected as (endpoint-scoped?, name) in order,
                         shouldDiagnose))                                   *)
 From Coq Require Import List ZArith NArith Bool.
-From Verif Require Import Lib.UrlTree.
+From Verif Require Import Lib.UrlTree Lib.UrlTreeProofs.
 Import ListNotations.
 Open Scope Z_scope.
 
@@ -137,6 +137,46 @@ Fixpoint build_from (pt : ptree) (ds : list decl) : option ptree :=
   end.
 
 Definition build (ds : list decl) : option ptree := build_from empty_ptree ds.
+
+(* ---------------- specification vocabulary ---------------- *)
+
+(* the declared pattern of an endpoint and the trie node it denotes *)
+Definition pat (d : decl) : pattern := parse_pattern (split_url (d_url d)).
+Definition dkey (d : decl) : key := key_of (pat d).
+
+(* No two declarations reach the same trie node with different kinds (host
+   label vs path segment), e.g. "a.b" and "a/b".  The insertion ignores the
+   kind, the lookup tests it: outside this condition the tree depends on the
+   declaration order and policies leak (known finding F-C13e).  This is
+   exactly what the monitor's classifier [hostPathClash] computes. *)
+Definition kind_consistentb (ds : list decl) : bool :=
+  forallb (fun d1 => forallb (fun d2 => kind_agree (pat d1) (pat d2)) ds) ds.
+
+Definition is_wild (ps : pstep) : bool :=
+  match ps with PWild => true | _ => false end.
+Definition wild_freeb (p : pattern) : bool :=
+  forallb (fun x => negb (is_wild (snd x))) p.
+
+(* some declared pattern reaches the child [X] through a step of kind [k] *)
+Definition reaches (ds : list decl) (X : key) (k : bool) : bool :=
+  existsb (fun d => match step_at [] (pat d) X with
+                    | Some (k', _) => eqb k' k
+                    | None => false
+                    end) ds.
+
+(* no parameter step of [p] (a pattern below node [K]) is shadowed along the
+   request [us]: no declared pattern with the same earlier steps continues
+   with the literal request part of that kind *)
+Fixpoint unshadowedb (ds : list decl) (K : key) (p : pattern) (us : list part)
+  : bool :=
+  match p, us with
+  | (_, ps) :: p', (ku, u) :: us' =>
+      match ps with
+      | PParam _ => negb (reaches ds (KConst u :: K) ku)
+      | _ => true
+      end && unshadowedb ds (skey_of ps :: K) p' us'
+  | _, _ => true
+  end.
 
 (* ---------------- selection (plugin_dispatcher.go) ---------------- *)
 
